@@ -150,7 +150,8 @@ def ows_free(t, depth=0):
 
 
 def r2_slots(ctx, sgn, qfn):
-    outs = ctx.px(sgn, inline=lambda c, d: c.get("res_path") != qfn, key="all-but-qvalue")
+    from .. import models as _MM
+    outs = ctx.px(sgn, inline=lambda c, d: c.get("res_path") != qfn, key="all-but-qvalue", extra_models=_MM.TRY_FOLD)
     info = P.BodyInfo(ctx.facts.bodies[sgn])
     slots = {}      # coding literal -> place key
     quality_terms = {}
@@ -250,7 +251,7 @@ def r2_slots(ctx, sgn, qfn):
                 ctx.violation("C16.R2", "C16.R2|early-true", "should_gzip answers %s before reading any element" % short(o.value, 40))
     nfalse = 0
     for o in outs:
-        if o.kind == "return" and any(e["k"] == "loop_enter" for e in o.events) and o.cons.variant_of(_next_term(o)) == "Some":
+        if o.kind == "return" and _turn_state(o) == "turn":
             nfalse += 1
             # a return from inside the element loop is only allowed when the element's weight is unparseable
             failed = any((isinstance(t, tuple) and v in ("None", "Err") and (qfn in repr(t) or "strip_prefix" in repr(t)[:200]))
@@ -281,8 +282,21 @@ def _next_term(o):
     return None
 
 
+def _turn_state(o):
+    """where a path that entered the element loop left it: "exit" (the iterator was exhausted: the loop-free tail follows) or
+    "turn" (inside one element's turn) - for a `for` loop by the first `next()`, for a summarised try_fold / try_for_each by
+    the outcome the model took"""
+    if not any(e["k"] == "loop_enter" for e in o.events):
+        return None
+    for e in o.events:
+        if e["k"] == "call" and e.get("label") in ("fold-exit", "fold-step"):
+            return "exit" if e["label"] == "fold-exit" else "turn"
+    v = o.cons.variant_of(_next_term(o))
+    return {"None": "exit", "Some": "turn"}.get(v)
+
+
 def r3_decision(ctx, sgn, outs, slots, header):
-    exits = [o for o in outs if o.kind == "return" and any(e["k"] == "loop_enter" for e in o.events) and o.cons.variant_of(_next_term(o)) == "None"]
+    exits = [o for o in outs if o.kind == "return" and _turn_state(o) == "exit"]
     trie = Trie(exits)
     vals = [None, 0, 1, 500, 1000]
     keyname = {v: k for k, v in slots.items()}
